@@ -1,12 +1,12 @@
 (** The single entry point the OCaml driver and the vm_compute cross-check call. *)
 From Coq Require Import List String.
 From KV Require Import Glue.Val.
-From KV Require Import Glue.C01 Glue.C02 Glue.C03 Glue.C04 Glue.C05 Glue.C06 Glue.C07 Glue.C08 Glue.C09 Glue.C10 Glue.C11 Glue.C12 Glue.C13 Glue.C14 Glue.C15 Glue.C16 Glue.C17 Glue.C18 Glue.C19 Glue.C20.
+From KV Require Import Glue.C01 Glue.C02 Glue.C03 Glue.C04 Glue.C05 Glue.C06 Glue.C07 Glue.C08 Glue.C09 Glue.C10 Glue.C11 Glue.C12 Glue.C13 Glue.C14 Glue.C15 Glue.C16 Glue.C17 Glue.C18 Glue.C19 Glue.C20 Glue.Sig.
 Import ListNotations.
 Local Open Scope string_scope.
 
 Definition runners : list (string -> list val -> option string) :=
-  [c01_run; c02_run; c03_run; c04_run; c05_run; c06_run; c07_run; c08_run; c09_run; c10_run; c11_run; c12_run; c13_run; c14_run; c15_run; c16_run; c17_run; c18_run; c19_run; c20_run].
+  [c01_run; c02_run; c03_run; c04_run; c05_run; c06_run; c07_run; c08_run; c09_run; c10_run; c11_run; c12_run; c13_run; c14_run; c15_run; c16_run; c17_run; c18_run; c19_run; c20_run; sig_run].
 
 Fixpoint first_some (rs : list (string -> list val -> option string)) fam args : option string :=
   match rs with
